@@ -140,6 +140,24 @@ CLAIMED["C19"] = (
     "Lean 4 proof (atomicity + twin theorems per cluster) with fault-injection correspondence and twin oracle",
     "DESIGN.md §5 C19, §10.2")
 
+CLAIMED["C11"] = (
+    "Lean 4 theorems over a transcription of the deferring-trait code paths (prefix classification and the four "
+    "delegate_attr_name rules, get_delegate_pattern / _trait_delegate_name, getattr_delegate, the setattr_delegate walk with its "
+    "100-step limit, assign/delete paths, base_trait, the delegate listener bookkeeping and the notification cascade): "
+    "listenedName = targetName for all four prefix styles and all names (the lemma finding F5 falsified; witnesses show the stripped "
+    "prefix breaks it), read-through in every reachable state, DelegatesTo never holds a local value and writes land on the "
+    "delegate validated by its trait, PrototypedFrom link / local assignment / del re-links, delegate swap, chains up to the "
+    "recursion limit (limit exceeded = DelegationError, nothing changed), hooks never fail (after fix bead785), notification of "
+    "linked attributes exactly once on acyclic graphs and never for unlinked ones — all along every history (induction via one "
+    "Effect relation). Full-strength clauses the code violates are kept as defs with proved refutations (F19 '*' chains with "
+    "different __prefix__, F20 DelegatesTo through PrototypedFrom). Correspondence: generated class shapes x histories, model vs "
+    "real code incl. ListenerItem.active and __listener_traits__ white-box state.",
+    "Trusted: Lean kernel, standard axioms; no translator for this cluster (tie = correspondence + oracle); listener machinery "
+    "abstracted to 'hooked on at most one object'; values are small ints; delegate graphs kept acyclic except the guarded cycle "
+    "probe (cyclic read = RecursionError after fix ec4908f); harness.",
+    "Lean 4 proof (Effect relation, invariants over histories) with model-code correspondence",
+    "DESIGN.md §5 C11, §10.2")
+
 NOT_YET = "check not built yet in this round (planned in DESIGN.md §9); not claimed until it exists"
 
 
